@@ -147,6 +147,15 @@ def bounded(tier, seed, procs):
                     if r != ("val", {(): 1}):
                         b.fail(Failure("blades", f"what=inverse dim={dim} metric={g} a={xb}", dict(kind="ga", what="inv", dim=dim, metric=list(g), a=xb),
                                        expected="{(): 1}", actual=outcome.describe(r)[:200], functions=["inv"]))
+                    # the same with an integer coefficient (the statement says "every non-null blade"): exact 1 expected
+                    for coeff in (3, 7, 49):
+                        xi = MultiVector({xb: coeff}, sp)
+                        r = outcome.run(lambda: to_ref(xi.inv() * xi))
+                        b.case(("inv-int", dim, g, xb, coeff), nontrivial=True)
+                        if r != ("val", {(): 1}) or type(r[1][()]) is float and r[1][()] != 1:
+                            near = r[0] == "val" and list(r[1]) == [()] and abs(r[1][()] - 1) < 1e-12
+                            b.fail(Failure("blades", f"what=inverse-integer-coefficient{' cause=integer-true-division' if near else ''} dim={dim} metric={g} a={xb} coeff={coeff}",
+                                           dict(kind="ga", what="inv-int", dim=dim, metric=list(g), a=xb, coeff=coeff), expected="{(): 1}", actual=outcome.describe(r)[:200], functions=["inv"]))
                 # dual: A | I.rev()
                 r = outcome.run(lambda: to_ref(x.dual()))
                 I_ref = {tuple(range(dim)): (-1) ** (dim * (dim - 1) // 2)}
